@@ -32,13 +32,14 @@ def representable (mode : Nat) (data : List Nat) : Bool :=
   | 1 => !data.isEmpty && data.all isDigit
   | 2 => !data.isEmpty && data.all isAlnum
   | 4 => true
-  | 8 => !data.isEmpty && allPairs isKanjiPair data
-  | 13 => !data.isEmpty && allPairs isHanziPair data
+  | 8 => allPairs isKanjiPair data          -- empty content is (vacuously) representable
+  | 13 => allPairs isHanziPair data
   | _ => false
 
-/-- the automatically chosen mode: first applicable of numeric, alphanumeric, kanji, byte -/
+/-- the automatically chosen mode: first applicable of numeric, alphanumeric, kanji (non-empty), byte -/
 def autoMode (data : List Nat) : Nat :=
-  if representable 1 data then 1 else if representable 2 data then 2 else if representable 8 data then 8 else 4
+  if representable 1 data then 1 else if representable 2 data then 2
+  else if !data.isEmpty && representable 8 data then 8 else 4
 
 /-! ### bit counts -/
 
